@@ -360,6 +360,27 @@ def run(ctx):
                     if (res.exit_code == 0) != ok_meas:
                         ctx.fail('C19/exit-status', 'inspect exit status does not reflect whether the measurement exists', inp, res.exit_code)
                     elif res.exit_code == 0:
+                        # the summary must be the library's: recomputed here from the raw document (by name) and the model configuration
+                        wsd = json.loads((tmp / 'ws.json').read_text())
+                        pairs = sorted({(m_['name'], m_['type']) for c_ in wsd['channels'] for s_ in c_['samples'] for m_ in s_['modifiers']})
+                        mdl = pyhf.Workspace(wsd).model(measurement_name=margs['measurement'])
+                        constr = lambda n_: ('unconstrained' if not mdl.config.param_set(n_).constrained else 'constrained_by_' + mdl.config.param_set(n_).pdf_type)
+                        want_sys = sorted([n_, constr(n_), sorted(t_ for nn_, t_ in pairs if nn_ == n_)] for n_ in mdl.config.par_order)
+                        if to_file and outfile.exists():
+                            gotj = json.loads(outfile.read_text())
+                            got_sys = sorted([e_[0], e_[1], sorted(e_[2])] for e_ in gotj.get('systematics', []))
+                            ctx.tally('inspect_shared_names', sum(1 for e_ in want_sys if len(e_[2]) > 1))
+                            if got_sys != want_sys:
+                                ctx.fail('C19/values', 'pyhf inspect reports other modifier types / constraints per parameter than the workspace declares', inp, got_sys, want_sys)
+                            if sorted(map(list, gotj.get('channels', []))) != sorted([c_['name'], len(c_['samples'][0]['data'])] for c_ in wsd['channels']) or \
+                               sorted(gotj.get('samples', [])) != sorted({s_['name'] for c_ in wsd['channels'] for s_ in c_['samples']}):
+                                ctx.fail('C19/values', 'pyhf inspect reports other channels / samples than the workspace declares', inp, gotj.get('channels'), None)
+                        else:
+                            # text table: every declared type of every parameter appears on the parameter's line
+                            for n_, c_, ts_ in want_sys:
+                                ln_ = [l for l in res.output.splitlines() if l.split()[:1] == [n_] and c_ in l]
+                                if not ln_ or any(t_ not in ln_[0] for t_ in ts_):
+                                    ctx.fail('C19/values', 'pyhf inspect (text) does not list every modifier type of a parameter', inp, ln_, [n_, c_, ts_]); break
                         star = [ln for ln in res.output.splitlines() if ln.strip().startswith('(*)')]
                         wantm = margs['measurement'] or 'meas'
                         if len(star) != 1 or star[0].split()[1] != wantm:
